@@ -98,8 +98,9 @@ RULE = ("cases = every schedule over {step, yaml, json, bin} that TLC enumerates
 ASSUME = ["objects are saved and loaded only through the public SerdeAPI (to_str/from_str, to_bincode/from_bincode, "
           "to_file/from_file with temp files under the system temp dir)",
           "observable trajectory = digest (60 bits of FNV-1a over the canonical value tree: sorted keys, floats by bit "
-          "pattern) of every `state`, `history` and `i` sub-tree after each step; static types: digest of the result of "
-          "using the object (train params, built sim, extended path)",
+          "pattern) of every `state`, `history` and `i` sub-tree after each step plus the public getters force_max / mu / "
+          "mass / assert_limits of every locomotive and consist; static types: digest of the result of using the object "
+          "(train params, built sim, extended path)",
           "tolerances exist only where the statement grants them: a number read from JSON may be 1 unit in the last place off "
           "(LoadFidelity), and after a JSON load a step may differ from the reference by a class-relative 1e-9 (TolQ in "
           "CheckpointTrace.tla); yaml / bin, idempotence and everything before a JSON load are compared bit-exactly. Since the "
@@ -164,7 +165,7 @@ _TECH = "TLA+ refinement statement + TLC schedule enumeration + spec->impl repla
 MANIFEST = {
     "C17": dict(engine="Checkpoint", design_ref="3 (C17)", technique=_TECH, category="exploration",
                 text="Exploration with a model-checked schedule space: TLC enumerates all schedules over {Step, SaveLoad(yaml), "
-                     "SaveLoad(json), SaveLoad(bin)} up to depth 6 for 28 object kinds (components, locomotives, consists, traces, "
+                     "SaveLoad(json), SaveLoad(bin)} up to depth 6 for 32 object kinds (components, locomotives incl. assert_limits = false and known-mu units, consists, traces, "
                      "train configs / builders, PathTpc finished and unfinished, locomotive / consist / set-speed / speed-limit "
                      "simulations, networks, est-time networks, locations) and checks that SaveLoad is a stuttering step of the "
                      "observable trajectory on the abstract object; every schedule (quick: depth 4 / 3; thorough: a 25 000 sample "
